@@ -499,6 +499,59 @@ def run_step(rel, shape, opi, which):
     return why, name, exc
 
 
+def run_steps(rel, shape, opis, which):
+    """K operations in sequence from one pre-state; both oracles after every operation"""
+    w = build(rel, shape)
+    ops = list_ops(w) if rel == "ir_mod" else set_ops(w) + ctor_ops(w)
+    names = []
+    for opi in opis:
+        name, f, _exp = ops[opi % len(ops)]
+        names.append(name)
+        before = snapshot(w.pool)
+        npool = len(w.pool)
+        try:
+            f()
+        except Exception:  # noqa: BLE001
+            pass
+        pool = w.pool
+        irs = w.irs + [x for x in pool if isinstance(x, gtirb.IR) and x not in w.irs]
+        why = None
+        if which in ("C04", "both"):
+            why = check_forest(pool)
+            if why is None and snapshot(pool[:npool]) != before:
+                why = "an attribute of a node not named by the operation changed"
+        if why is None and which in ("C03", "both"):
+            why = check_cache(pool, irs)
+        if why:
+            return why, ";".join(names)
+    return None, ";".join(names)
+
+
+def step2(s2: int, s3: int, op1: int, op2: int) -> bool:
+    """
+    pre: 0 <= s2 < 3 and 0 <= s3 < 3
+    pre: 0 <= op1 < SHARD["nops1"] and 0 <= op2 < SHARD["nops"]
+    post: __return__
+    """
+    rel = SHARD["rel"]
+    which = SHARD["which"]
+    a, b = pick(s2, 3), pick(s3, 3)
+    if rel == "ir_mod":
+        shape = (a, b, SHARD["third"], 0)
+    elif rel in ("mod_sec", "mod_sym", "mod_prx"):
+        shape = (1, 2, a, b)
+    else:
+        shape = (2, 3, a, b)
+    o1 = SHARD["op_lo"] + pick(op1, SHARD["nops1"])
+    o2 = pick(op2, SHARD["nops"])
+    with untraced():
+        why, names = run_steps(rel, shape, [o1, o2], which)
+    if why is not None:
+        return fail("%s shape=%s ops=%s: %s" % (rel, shape, names, why))
+    count("scenarios")
+    return done()
+
+
 def n_ops(rel):
     w = build(rel, (0, 0, 0, 0))
     return len(list_ops(w)) if rel == "ir_mod" else len(set_ops(w) + ctor_ops(w))
@@ -791,6 +844,16 @@ def alias(case: int, dflt: int, target: int) -> bool:
 
 def extra_shards(which, tier):
     out = [{"fn": "twin", "consts": {"which": which}, "timeout": 600}]
+    if tier != "quick":
+        # K = 2: every ordered pair of operations from the pre-states with both candidate parents attached to different IRs
+        for rel in RELS:
+            n = n_ops(rel)
+            chunk = 4 if rel != "ir_mod" else 6
+            thirds = (0, 1, 2) if rel == "ir_mod" else (0,)
+            for third in thirds:
+                for lo in range(0, n, chunk):
+                    out.append({"fn": "step2", "consts": {"rel": rel, "which": which, "third": third, "op_lo": lo, "nops1": min(chunk, n - lo), "nops": n},
+                                "timeout": 2400, "twin": "first", "cover": False})
     if which == "C04":
         out.append({"fn": "alias", "consts": {}, "timeout": 600})
     return out
